@@ -47,6 +47,36 @@ def shred(rows, row_opt, elem_opt):
     return rep, de, vals
 
 
+STRUCT_NULL = "<struct null>"       # row marker: the struct group that holds the LIST / MAP group is null in this row
+
+
+def struct_off(leaf):
+    """number of optional struct ancestors of the LIST/MAP group (0 or 1 here)"""
+    return 1 if leaf.get("struct_opt") else 0
+
+
+def max_def_leaf(leaf):
+    return levels_of_shape(leaf["row_opt"], leaf["elem_opt"])[2] + struct_off(leaf)
+
+
+def shred_leaf(lrows, leaf):
+    """Dremel shredding of a LIST / MAP leaf that may sit below one struct group
+    (optional group s { <LIST or MAP group> }): every level of the one-level shape moves up by the number of
+    optional ancestors; a null struct is level 0."""
+    off = struct_off(leaf)
+    rep, de, vals = [], [], []
+    for r in lrows:
+        if isinstance(r, str) and r == STRUCT_NULL:
+            assert leaf.get("struct_opt")
+            rep.append(0), de.append(0)
+        else:
+            r1, d1, v1 = shred([r], leaf["row_opt"], leaf["elem_opt"])
+            rep += r1
+            de += [d + off for d in d1]
+            vals += v1
+    return rep, de, vals
+
+
 # ---------------------------------------------------------------------------------------------
 # Encodings.md
 # ---------------------------------------------------------------------------------------------
@@ -267,16 +297,20 @@ def leaf_columns(col):
     if col["kind"] == "flat":
         # an ordinary REQUIRED primitive column next to the nested ones (no levels at all)
         return [dict(path=[col["name"]], row_opt=False, elem_opt=False, ptype=col["ptype"], which="flat")]
+    # a column "s.NAME" with col["struct"] = {"name": "s", "opt": bool} is the LIST / MAP group NAME inside the struct group s
+    st = col.get("struct")
+    top = [st["name"], col["name"].split(".", 1)[1]] if st else [col["name"]]
+    so = (bool(st["opt"]) if st else None)
     if col["kind"] == "list":
         # LogicalTypes.md: the middle group "list" and the leaf "element" are the recommended names; older writers
         # use others (bag/array_element, array/item) and readers must not depend on them
-        return [dict(path=[col["name"], col.get("group_name", "list"), col.get("elem_name", "element")], row_opt=col["row_opt"],
-                     elem_opt=col["elem_opt"], ptype=col["ptype"], which="elem")]
+        return [dict(path=top + [col.get("group_name", "list"), col.get("elem_name", "element")], row_opt=col["row_opt"],
+                     elem_opt=col["elem_opt"], ptype=col["ptype"], which="elem", struct_opt=so)]
     g = col.get("group_name", "key_value")          # "map" in files of older writers
-    return [dict(path=[col["name"], g, "key"], row_opt=col["row_opt"], elem_opt=False,
-                 ptype=col["key_ptype"], which="key"),
-            dict(path=[col["name"], g, "value"], row_opt=col["row_opt"],
-                 elem_opt=col["elem_opt"], ptype=col["ptype"], which="value")]
+    return [dict(path=top + [g, "key"], row_opt=col["row_opt"], elem_opt=False,
+                 ptype=col["key_ptype"], which="key", struct_opt=so),
+            dict(path=top + [g, "value"], row_opt=col["row_opt"],
+                 elem_opt=col["elem_opt"], ptype=col["ptype"], which="value", struct_opt=so)]
 
 
 def leaf_rows(col, leaf, rows):
@@ -284,7 +318,7 @@ def leaf_rows(col, leaf, rows):
     if col["kind"] in ("list", "flat"):
         return rows
     k = 0 if leaf["which"] == "key" else 1
-    return [None if r is None else [kv[k] for kv in r] for r in rows]
+    return [r if (r is None or r == STRUCT_NULL) else [kv[k] for kv in r] for r in rows]
 
 
 def schema_elements(cols):
@@ -298,15 +332,20 @@ def schema_elements(cols):
             out.append(pt.SchemaElement(name=c["name"], type=t, converted_type=ct, repetition_type=REQ, i32=1))
             continue
         top = OPT if c["row_opt"] else REQ
+        gname = c["name"]
+        if c.get("struct"):
+            out.append(pt.SchemaElement(name=c["struct"]["name"], repetition_type=OPT if c["struct"]["opt"] else REQ,
+                                        num_children=1, i32=1))
+            gname = c["name"].split(".", 1)[1]
         if c["kind"] == "list":
             t, ct = PTYPES[c["ptype"]]
-            out.append(pt.SchemaElement(name=c["name"], repetition_type=top, num_children=1,
+            out.append(pt.SchemaElement(name=gname, repetition_type=top, num_children=1,
                                         converted_type=pt.ConvertedType.LIST, i32=1))
             out.append(pt.SchemaElement(name=c.get("group_name", "list"), repetition_type=REP, num_children=1, i32=1))
             out.append(pt.SchemaElement(name=c.get("elem_name", "element"), type=t, converted_type=ct,
                                         repetition_type=OPT if c["elem_opt"] else REQ, i32=1))
         else:
-            out.append(pt.SchemaElement(name=c["name"], repetition_type=top, num_children=1,
+            out.append(pt.SchemaElement(name=gname, repetition_type=top, num_children=1,
                                         converted_type=pt.ConvertedType.MAP, i32=1))
             out.append(pt.SchemaElement(name=c.get("group_name", "key_value"), repetition_type=REP, num_children=2,
                                         converted_type=pt.ConvertedType.MAP_KEY_VALUE, i32=1))
@@ -346,8 +385,8 @@ def write_file(path, cols, row_groups):
                     rep, de, vals = [0] * len(rows), [0] * len(rows), list(rows)
                 else:
                     max_rep = 1
-                    rep, de, vals = shred(lrows, leaf["row_opt"], leaf["elem_opt"])
-                    _, _, max_def = levels_of_shape(leaf["row_opt"], leaf["elem_opt"])
+                    rep, de, vals = shred_leaf(lrows, leaf)
+                    max_def = max_def_leaf(leaf)
                 pages = chunk_pages(rep, de, vals, max_def, lay["cuts"])
                 start = len(body)
                 codec = lay.get("codec")
@@ -383,7 +422,7 @@ def write_file(path, cols, row_groups):
                     dictionary_page_offset=dict_off, total_uncompressed_size=usize_total,
                     total_compressed_size=size, i32list=[1, 4])
                 chunks.append(pt.ColumnChunk(file_offset=start, meta_data=cmd))
-                wrg.append(dict(col=c["name"], which=leaf["which"], row_opt=leaf["row_opt"],
+                wrg.append(dict(col=c["name"], which=leaf["which"], row_opt=leaf["row_opt"], struct_opt=leaf.get("struct_opt"),
                                 elem_opt=leaf["elem_opt"], max_def=max_def, rep=rep, de=de, vals=vals,
                                 pages=[(r, d, v) for (r, d, v, _) in pages], version=lay["version"],
                                 dictionary=bool(lay["dictionary"])))
